@@ -273,15 +273,15 @@ def main(tier, seed):
 
     # ---- histories
     work = []          # (prog, level, F, kind, history)
-    n4, n3 = 200, 100
+    n4, n3 = 250, 150
     nlong = 4 if tier == 'quick' else 12
     for (p, lvl), F in zip(pl, frees):
         l1, l2, l3 = choose_lines(F)
         a7 = [1, 2, 3, 4, 5, [6, l1], [7, l1]]
         a9 = a7 + [[6, l2], [7, l2]]
         a11 = a9 + [[6, l3], [7, l3]]
-        # quick is a subset of thorough: a7^3 < a9^3, a9^2 < a11^2, long k<4 < k<12
-        for h in itertools.product(a7 if tier == 'quick' else a9, repeat=3):
+        # quick is a subset of thorough: same a7^3, a9^2 < a11^2, long k<4 < k<12
+        for h in itertools.product(a7, repeat=3):
             work.append((p, lvl, F, 'hist3', list(h)))
         for h in itertools.product(a9 if tier == 'quick' else a11, repeat=2):
             work.append((p, lvl, F, 'hist2', list(h)))
@@ -297,10 +297,10 @@ def main(tier, seed):
     ctx.rule.append(
         f'{len(progs)} programs (loops, IF, SELECT, GOSUB, SUB/FUNCTION incl. recursion, several statements per '
         f'line, empty blocks, END in the middle, traps, ON ERROR) x debug levels -O0/-O2: every command history of '
-        f'length 3 over {{step,next,stepi,nexti,continue,break L,delbr L}} with L in '
-        + ('1 line (the most visited statement) and of length 2 with L in 2 lines'
-           if tier == 'quick' else
-           '2 lines and of length 2 with L in 3 lines (one without a statement, one beyond the end)')
+        f'length 3 over {{step,next,stepi,nexti,continue,break L,delbr L}} with L = the line of the most visited '
+        f'statement, every history of length 2 with L in '
+        + ('2 lines (one without a statement)' if tier == 'quick' else
+           '3 lines (one without a statement, one beyond the end)')
         + (f', {n3}+{n4} seeded histories of length 3 and 4 over the 11-symbol alphabet per program/level'
            if tier != 'quick' else '')
         + f', {nlong} seeded histories of length 5..30, and the all-step history; each followed by continue until '
@@ -323,7 +323,7 @@ def main(tier, seed):
     icases = [{'src': ch[0][0][1], 'level': ch[0][1], 'script': ch[0][0][2], 'final': True,
                'max_ticks': FUEL, 'histories': [w[4] for w in ch]} for ch in chunks]
     t0 = time.time()
-    raws = vlib.run_impl('dbgfn.history', icases)
+    raws = vlib.run_impl('dbgfn.history', icases, timeout=7000)
     ph['impl_histories'] = round(time.time() - t0, 1)
     jobs = []
     ok_chunks = []
@@ -335,7 +335,7 @@ def main(tier, seed):
         jobs.append([2, module_sx(raw['module']), raw['dbginfo'], script_sx(ch[0][0][2]), FUEL, hs])
         ok_chunks.append((ch, raw))
     t0 = time.time()
-    mouts = vlib.run_model(exe, jobs, par=vlib.NPROC)
+    mouts = vlib.run_model(exe, jobs, timeout=7000, par=vlib.NPROC)
     ph['model_histories'] = round(time.time() - t0, 1)
     ctx.extra['phase_seconds'] = ph
     t0 = time.time()
